@@ -240,7 +240,7 @@ def run(P, R):
         # all candidates: declared masters first, running instances only when there is none
         stmts = [ast.unparse(s) for s in sm.node.body if not isinstance(s, ast.Expr)]
         a = '%s = self.get_master_identifiers()' % allc
-        b = "%s.discard('')" % allc
+        b = "if '' in %s:\n    %s.remove('')" % (allc, allc)       # canonical spelling of allc.discard('')
         fall = [n for n in own_nodes(sm.node) if isinstance(n, ast.Assign) and isinstance(n.targets[0], ast.Name)
                 and n.targets[0].id == allc and 'running_identifiers()' in ast.unparse(n.value)]
         all_ok = a in stmts and any(ast.unparse(s) == b for s in sm.node.body) and len(fall) == 1 and \
